@@ -9,8 +9,9 @@ import verifylib as V
 
 ASSUME = [
     "per alert ID the times of the points (stream) / batches are non-decreasing; overlapping batch windows (period > every) are not explored",
-    "every point carries every field the lambdas read; errors the task reports anyway are recorded (nerr/nerrc on the Reset lines, node_errors_reported) and the outputs are judged as usual; a missing field is C04/C05 territory",
-    "task restarts (same daemon, topic kept in memory) are explored only where the topic's memory is the true state: no flapping, recoveries delivered; restart from persisted storage / crash points is C08; no inhibitors; one group per alert ID",
+    "outside the errs family every point carries every field the lambdas read (there: a failing level condition does not hold, a failing reset condition does not hold the level - as the code has it); errors the task reports are recorded (nerr/nerrc on the Reset lines, node_errors_reported) and the outputs are judged as usual; a missing field is C04/C05 territory",
+    "task restarts (same daemon, topic kept in memory) are explored only where the topic's memory is the true state: no flapping, recoveries delivered; restart from persisted storage / crash points is C08; no inhibitors; restore from PERSISTED event states only as a task restart of an alert with an inline handler (anonymous topic closed and restored from Bolt with all IDs of the chunk in it)",
+    "several alert IDs rendered within one group: accepted if every ID follows the documented machine on its own points, or - listed known finding several-ids-per-group-share-state - if the group's single state machine explains it; the label and previous level of every event are judged per ID either way",
     "with flapping() the documentation fixes the hysteresis on a percentage of state changes but not the weighting: at verdict level the suppression of a NON-OK event is left open unless the recorded history (last `history` levels) contains no state change; a return to OK is always due (a withheld recovery is never made up for) - the stream form's deviation from that is the listed known finding stream-flapping-recovery-withheld",
     "stateful reset conditions are explored as count() >= k in stream form without filters; 'for each point an expression may or may not be evaluated' (docs): the ID's count is judged within [times the reset had to be consulted, number of the ID's own points], never anything of another ID",
     "delivery: the named topic's own handler queue never fills (stuck-handler scenario: rounds with exact waits on the alert package's enq/done hooks); a full queue of an INLINE handler is the explored fault",
@@ -31,6 +32,7 @@ OBSERVATIONS = [
     ("AlertNode_obs_batchflap.cfg", "EmitIff", "the batch form shares the stream's emission test: a recovery during flapping is never reported"),
     ("AlertNode_obs_sharedreset.cfg", "LevelRule", "reset expressions evaluated on the node's shared copy: one ID's level depends on other IDs' points"),
     ("AlertNode_obs_collecterr.cfg", "NamedDelivery", "an error collecting for the anonymous topic keeps the event from the named topic"),
+    ("AlertNode_obs_errreset.cfg", "LevelRule", "a reset condition that fails to evaluate holds the level"),
 ]
 
 
